@@ -478,6 +478,24 @@ def run_pspace_indexing(ctx):
     pp = odl.ProductSpace(odl.ProductSpace(r3, 2), 3)
     pe = odl.ProductSpace(r3, 3, exponent=1.0)
     for pn, p in {'plain': ps, 'array-weighted': pw, 'const-weighted': pc, 'nested': pp, 'exponent1': pe}.items():
+        # element creation from ready-made parts / raw data of the wrong length is refused (ValueError / TypeError), never
+        # answered with an element that has more or fewer parts than its space
+        good_parts = [s_.zero() for s_ in p]
+        bads = {'one-part-too-many': good_parts + [good_parts[0]], 'one-part-missing': good_parts[:-1], 'no-parts': [],
+                'raw-too-many': [np.zeros(s_.shape) if not isinstance(s_, odl.ProductSpace) else [np.zeros(3)] * len(s_) for s_ in p] + [np.zeros(3)],
+                'tuple-one-part-missing': tuple(good_parts[:-1])}
+        for bname, bad in bads.items():
+            for kw in ({}, {'cast': False}):
+                ctx.ev('element-creation')
+                ctx.case('pspace-element;bad:%s;%s' % (bname, pn), str(kw))
+                try:
+                    e = p.element(bad, **kw)
+                    ctx.violation('ProductSpace.element', 'bad:%s' % ('wrong-number-of-ready-made-parts' if 'part' in bname else bname), 'bad-input-accepted',
+                                  parts=len(getattr(e, 'parts', [])), space_len=len(p))
+                except (ValueError, TypeError):
+                    pass
+                except Exception as ex:
+                    ctx.violation('ProductSpace.element', 'bad:%s' % bname, 'wrong-exception:' + type(ex).__name__)
         x = p.element([np.arange(s.size, dtype=float).reshape(s.shape) + 10 * k if not isinstance(s, odl.ProductSpace)
                        else [np.arange(3.) + kk + 10 * k for kk in range(len(s))] for k, s in enumerate(p)])
         idxs = [0, -1, slice(0, 2), slice(None, None, 2), [2, 0], (1,), (slice(0, 2),), slice(1, None)]
